@@ -245,7 +245,19 @@ def _norm(v):
 def fingerprint(b):
     """everything a block holds: its assigned parameters, its components' parameters, names, order, location"""
     def one(o):
-        return (type(o).__name__, o.name, tuple((k, _norm(v)) for k, v in sorted(o.p.items())))
+        # p.items() lists a parameter once its *definition* was assigned on any object of the class, so values that still
+        # equal the definition's default are left out: the list must not depend on what happened to other blocks
+        defs = o.p.paramDefs
+        out = []
+        for k, v in sorted(o.p.items()):
+            v = _norm(v)
+            try:
+                if v == _norm(defs[k].default):
+                    continue
+            except Exception:  # noqa: BLE001  (parameters without a comparable default are kept)
+                pass
+            out.append((k, v))
+        return (type(o).__name__, o.name, tuple(out))
 
     loc = b.spatialLocator
     return (one(b) + (lfp_print(b),), tuple(one(c) + (float(c.temperatureInC),) for c in b),
@@ -264,19 +276,54 @@ def fingerprint_diff(f0, f1):
     return "location changed"
 
 
+def place_in_third_core(b, sym, assem_num):
+    """Put the block (alone in an assembly) into a third-core periodic hex core: at the centre (symmetry factor 3), on a
+    symmetry line with both edge positions filled (2) or inside (1).  The assembly number gives the block its name."""
+    from armi.reactor import assemblies, blocks, blueprints, geometry, grids, reactors
+
+    r = reactors.Reactor("c20sym", blueprints.Blueprints())
+    core = reactors.Core("Core")
+    r.add(core)
+    core.spatialGrid = grids.HexGrid.fromPitch(16.0)
+    core.spatialGrid.geomType = geometry.GeomType.HEX
+    core.spatialGrid.symmetry = str(geometry.SymmetryType(geometry.DomainType.THIRD_CORE, geometry.BoundaryType.PERIODIC))
+    core.spatialGrid.armiObject = core
+
+    def put(block, num, ij):
+        a = assemblies.HexAssembly("fuel", assemNum=num)
+        a.spatialGrid = grids.AxialGrid.fromNCells(1)
+        a.spatialGrid.armiObject = a
+        a.add(block)
+        a.calculateZCoords()
+        core.add(a, core.spatialGrid[ij[0], ij[1], 0])
+
+    put(b, assem_num, {3: (0, 0), 2: (2, -1), 1: (1, 0)}[sym])
+    if sym == 2:
+        put(blocks.HexBlock("edge", height=1.0), 900 + assem_num, (-1, 2))
+    if b.getSymmetryFactor() != float(sym):
+        raise tlc.MachineryError("placement gives symmetry factor %r, wanted %r" % (b.getSymmetryFactor(), sym))
+    return r  # the caller keeps the reactor alive
+
+
 class Pool:
     """Blocks keyed by (position, record); reused between cases because no case may change them (checked every time)."""
 
     def __init__(self, name_rev):
         self.name_rev = name_rev
         self.blocks = {}
+        self.reactors = []
 
-    def get(self, pos, rec, shape="circle"):
-        key = (pos, shape, json.dumps(rec, sort_keys=True))
+    def get(self, pos, rec, shape="circle", placed=False):
+        key = (pos, shape, placed, json.dumps(rec, sort_keys=True))
         hit = self.blocks.get(key)
         if hit is None:
-            name = "b%02d" % ((50 - pos) if self.name_rev else pos)
-            b = make_block(name, rec, shape)
+            rank = (50 - pos) if self.name_rev else pos
+            b = make_block("b%02d" % rank, rec, shape)
+            if placed:  # every member of a case with a symmetry-cut block sits in a core (the names come from the assemblies)
+                self.reactors.append(place_in_third_core(b, rec.get("sym", 1), rank))
+                # Core.add rescales mass-like parameters of symmetry-cut assemblies: the record's values are those in place
+                b.p.percentBu, b.p.massHmBOL, b.p.flux = float(rec["bu"]), float(rec["hm"]), float(rec["w"])
+                warm(b)
             hit = self.blocks[key] = [b, fingerprint(b)]
         return key, hit[0], hit[1]
 
@@ -322,8 +369,9 @@ def run_case(case, pool):
 
     opt, exp = case["opt"], case["rep"]
     keys, members, prints = [], [], []
+    placed = any(rec.get("sym", 1) != 1 for rec in case["ms"])
     for pos, rec in enumerate(case["ms"], 1):
-        k, b, f = pool.get(pos, rec, "rect" if opt["rep"] == "ComponentAverage1DSlab" else "circle")
+        k, b, f = pool.get(pos, rec, "rect" if opt["rep"] == "ComponentAverage1DSlab" else "circle", placed)
         keys.append(k)
         members.append(b)
         prints.append(f)
@@ -372,7 +420,7 @@ def run_case(case, pool):
     return out
 
 
-REP_QUICK_SAMPLE = {"dens": 1200, "temp": 800, "burn": 1200, "kind": 800, "tri": 1600, "cyl": 1200, "cyl3": 600, "lfp": 300, "ord": 300, "perm": 600}
+REP_QUICK_SAMPLE = {"dens": 1200, "temp": 800, "burn": 1200, "kind": 800, "tri": 1600, "cyl": 1200, "cyl3": 600, "lfp": 300, "ord": 300, "perm": 600, "sym": 1500}
 
 
 def check_rep(rep, tier, seed):
